@@ -132,11 +132,13 @@ func (c *Ctx) targetIndexValue(v ssa.Value, depth int) bool {
 func (c *Ctx) c01Accessors() {
 	r := c.R
 	r.Rule("R8", "what a handler receives is the parsed line: at every handler-invocation site the line argument is a forwarded parameter of a Handle wrapper or a Line.Copy made for that invocation alone; the three handler sets and all handlers of one event start from the same parsed line, so a shared pointer would let one handler's edits change what another receives")
-	r.Rule("R10", "the source is split by position only: every decision in parseUserHost compares positions of '!' and '@' (strings.Index results, lengths, constants); no byte of the nick, ident or host is inspected, so no legal nick (the backtick that the default nick generator produces, say) can make a nick!user@host source fall back to 'host only'")
+	r.Rule("R10", "the source is split by position only: every decision in parseUserHost compares positions of '!' and '@' (strings.Index results, lengths, constants); the nick is the text before the FIRST '!' (the user part may contain more); no byte of the nick, ident or host is inspected, so no legal nick (the backtick that the default nick generator produces, say) can make a nick!user@host source fall back to 'host only'")
 	r.Rule("R9", "Public decides on byte 0 of the unmodified target parameter (Args[0], or Args[1] for CTCP/CTCPREPLY) compared against exactly the four RFC channel prefixes '#' '&' '+' '!'; Target returns only the sender's nick, a parameter or \"\", and the nick only where Public answered false")
 	copyFn := c.Func(c.Client, "(*Line).Copy")
 	if r.Anchor("R8", "(*Line).Copy", copyFn != nil) {
 		c.perInvocationCopy("R8", copyFn)
+		r.Rule("R12", "no tag map at all when no tag section was sent - also in the copy a handler receives: every map Line.Copy (or a helper it fills the copy with) allocates for a map-typed field of Line is allocated only under 'the source's map is not nil'")
+		c.copyKeepsNilMapRule("R12", copyFn)
 	}
 	c.positionalSplitRule("R10")
 	r.Rule("R11", "a handler registered for the verb is found whatever letter case either side used and however late it was registered: every map of the handler set is keyed by lower-cased names (= C04.R1) and each dispatch walks a list snapshot built afresh under the set's lock (= C05.R5), never a cached one")
@@ -363,4 +365,140 @@ func (c *Ctx) positionalSplitRule(rule string) {
 		r.Add(rule, fmt.Sprintf("positional#%d", n), c.InstrPos(iff), c.FuncKey(fn), "whether a source splits into nick!user@host depends only on where '!' and '@' are", okP, why)
 	})
 	r.Floor(rule, "decisions in parseUserHost", n, 1)
+	// the nick ends at the FIRST '!': RFC 2812 lets the user part contain '!' but not the nick
+	bang := func(v ssa.Value) bool {
+		if s, ok := constString(v); ok {
+			return s == "!"
+		}
+		k, ok := constInt(v)
+		return ok && k == '!'
+	}
+	var firstBang func(v ssa.Value, d int) bool
+	firstBang = func(v ssa.Value, d int) bool {
+		if d > 4 {
+			return false
+		}
+		switch t := v.(type) {
+		case *ssa.Const:
+			s, ok := constString(t)
+			return ok && s == ""
+		case *ssa.Phi:
+			for _, e := range t.Edges {
+				if !firstBang(e, d+1) {
+					return false
+				}
+			}
+			return len(t.Edges) > 0
+		case *ssa.Slice:
+			if t.Low != nil || t.High == nil {
+				return false
+			}
+			call, ok := t.High.(*ssa.Call)
+			if !ok {
+				return false
+			}
+			switch calleeName(&call.Call) {
+			case "strings.Index", "strings.IndexByte", "strings.IndexRune":
+				return call.Call.Args[0] == t.X && bang(call.Call.Args[1])
+			}
+		case *ssa.Extract:
+			if call, ok := t.Tuple.(*ssa.Call); ok && calleeName(&call.Call) == "strings.Cut" && t.Index == 0 {
+				return bang(call.Call.Args[1])
+			}
+		case *ssa.UnOp:
+			// element 0 of SplitN(x, "!", 2)
+			if ia, ok := t.X.(*ssa.IndexAddr); ok && t.Op == token.MUL {
+				if k, okK := constInt(ia.Index); okK && k == 0 {
+					if call, okC := ia.X.(*ssa.Call); okC && (calleeName(&call.Call) == "strings.SplitN" || calleeName(&call.Call) == "strings.Split") {
+						return bang(call.Call.Args[1])
+					}
+				}
+			}
+		}
+		return false
+	}
+	nRet := 0
+	funcInstrs(fn, func(in ssa.Instruction) {
+		rt, ok := in.(*ssa.Return)
+		if !ok || len(rt.Results) < 1 {
+			return
+		}
+		nRet++
+		v := retVal(rt, 0)
+		r.Add(rule, fmt.Sprintf("nick-first-bang#%d", nRet), c.InstrPos(rt), c.FuncKey(fn), "the nick returned is the source up to its first '!' (or empty)", firstBang(v, 0), "nick result is "+v.String())
+	})
+}
+
+// copyKeepsNilMapRule: C01.R12.
+func (c *Ctx) copyKeepsNilMapRule(rule string, copyFn *ssa.Function) {
+	r := c.R
+	n := 0
+	// guarded: m's block is dominated by a test "v != nil" where v is a map-typed load of a field of a parameter,
+	// or a map-typed parameter itself
+	guarded := func(fn *ssa.Function, m ssa.Instruction) (bool, string) {
+		for _, cd := range CondsAt(m.Block()) {
+			cd = unwrapNot(cd)
+			bo, ok := cd.V.(*ssa.BinOp)
+			if !ok || (bo.Op != token.NEQ && bo.Op != token.EQL) {
+				continue
+			}
+			var other ssa.Value
+			if isNilConst(bo.Y) {
+				other = bo.X
+			} else if isNilConst(bo.X) {
+				other = bo.Y
+			} else {
+				continue
+			}
+			if _, isMap := other.Type().Underlying().(*types.Map); !isMap {
+				continue
+			}
+			if (bo.Op == token.NEQ) != cd.True {
+				continue // the nil side
+			}
+			if _, isP := other.(*ssa.Parameter); isP {
+				return true, "under " + other.Name() + " != nil"
+			}
+			if fv, base := loadedField(other); fv != nil {
+				if _, isP := base.(*ssa.Parameter); isP {
+					return true, "under " + fv.Name() + " != nil"
+				}
+			}
+		}
+		return false, "the map is allocated whether or not the source has one: a line without tags gets an empty tag map"
+	}
+	var scan func(fn *ssa.Function, depth int)
+	seen := map[*ssa.Function]bool{}
+	scan = func(fn *ssa.Function, depth int) {
+		if fn == nil || seen[fn] || depth > 2 || !c.InModuleFn(fn) {
+			return
+		}
+		seen[fn] = true
+		funcInstrs(fn, func(in ssa.Instruction) {
+			switch t := in.(type) {
+			case *ssa.MakeMap:
+				n++
+				ok, why := guarded(fn, t)
+				r.Add(rule, fmt.Sprintf("copy-map#%d:%s", n, c.FuncKey(fn)), c.InstrPos(t), c.FuncKey(fn), "a map in the copy exists only if the source has one", ok, why)
+			case *ssa.Call:
+				if cal := t.Call.StaticCallee(); cal != nil && !t.Call.IsInvoke() && cal.Package() == c.Client {
+					if _, isMap := t.Type().Underlying().(*types.Map); isMap {
+						scan(cal, depth+1)
+					}
+				}
+			}
+		})
+	}
+	scan(copyFn, 0)
+	hasMapField := false
+	if st, ok := c.A.Line.Underlying().(*types.Struct); ok {
+		for i := 0; i < st.NumFields(); i++ {
+			if _, isMap := st.Field(i).Type().Underlying().(*types.Map); isMap {
+				hasMapField = true
+			}
+		}
+	}
+	if hasMapField {
+		r.Floor(rule, "map allocations in Line.Copy", n, 1)
+	}
 }
